@@ -29,10 +29,13 @@ Variables mi ms : nat.
 Variables max limit : N.
 Variable bs : nat.
 
-(* the inner loop and the retry loop in one walk, as in Reader.next_record: `fresh` restarts with a cleared iovec *)
-Fixpoint gnext (fuel : nat) (h : heap) (c : gcst) (g : giov) (st : glstate) (rs re lso : nat)
-  : goutcome * heap * grd :=
-  let ret o h c g lso := (o, h, {| rchunker := c; riov := g; rlso := lso |}) in
+Definition gres := (goutcome * heap * grd * list gchunk)%type.
+Definition cons_tr (ch : gchunk) (r : gres) : gres := let '(o, h, rd, tr) := r in (o, h, rd, ch :: tr).
+
+(* the inner loop and the retry loop in one walk, as in Reader.next_record; the last component is the list of chunks the
+   call pumped, in order (ghost output: what the value-level reader of hcobs/Reader.v walks over) *)
+Fixpoint gnext (fuel : nat) (h : heap) (c : gcst) (g : giov) (st : glstate) (rs re lso : nat) : gres :=
+  let ret o h c g lso := (o, h, {| rchunker := c; riov := g; rlso := lso |}, @nil gchunk) in
   match fuel with
   | O => ret GFuel h c g lso
   | S fuel =>
@@ -41,6 +44,7 @@ Fixpoint gnext (fuel : nat) (h : heap) (c : gcst) (g : giov) (st : glstate) (rs 
     match gpump bs h (gcache_ g) c with
     | None => ret GPanic h c g lso
     | Some (h1, k1, ch, c1) =>
+      cons_tr ch (
       let g1 := set_cache k1 g in
       (* the record is complete: finish or retry *)
       let complete h2 g2 lso2 :=
@@ -91,11 +95,11 @@ Fixpoint gnext (fuel : nat) (h : heap) (c : gcst) (g : giov) (st : glstate) (rs 
             | GStop => ret GNone h2 c1 empty_iov lso
             end
           end
-      end
+      end)
     end
   end.
 
 (* one call of next_record_bytes: the iovec is cleared first *)
-Definition gnext_record (fuel : nat) (h : heap) (r : grd) : goutcome * heap * grd :=
+Definition gnext_record (fuel : nat) (h : heap) (r : grd) : gres :=
   gnext fuel h (rchunker r) (clear (riov r)) MSkipSentinel 0 0 (rlso r).
 End Reader.
